@@ -281,12 +281,23 @@ def main():
         broken.append("harness-build: " + "\n".join([l for l in out.splitlines() if l.startswith("error")][:5]))
         log.append(out[-2000:])
 
+    # --replay <file>: first show the recorded events against the real library (every observation), then run the check as usual
+    if a.replay and harness_ok:
+        try: rj = json.load(open(a.replay, encoding="utf-8"))
+        except Exception as e: rj = None; print(f"  replay file unreadable: {e}")
+        if rj is not None:
+            if rj.get("no_longer_checks"):
+                print("  replay: no failing input was recorded; what no longer checked: " + "; ".join(rj["no_longer_checks"])[:600])
+                if rj.get("first_disagreement"): print("  first disagreement: " + json.dumps(rj["first_disagreement"], ensure_ascii=False)[:600])
+            else:
+                print(f"  replay of {a.replay}: {rj.get('class')}: {str(rj.get('what'))[:300]}")
+                rc_r, out_r = sh([HBIN, "replay", a.replay, "--out", os.path.join(outdir, "replay")], timeout=600)
+                for l in out_r.splitlines()[:200]: print("    " + l)
     # 5: streams
     reports = []; traces = []; crash_violations = []
     if harness_ok:
         for s in streams:
             cmd = [HBIN, s, "--tier", tier, "--seed", str(seed), "--out", outdir]
-            if a.replay: cmd += ["--replay", a.replay]
             rc, out = sh(cmd, timeout=6 * 3600)
             log.append(f"stream {s}: rc={rc} {out.strip().splitlines()[-1] if out.strip() else ''}")
             rp = os.path.join(outdir, f"{s}.report.json")
